@@ -133,6 +133,7 @@ type outerScope struct {
 }
 
 type Gen struct {
+	loopForms       []string
 	constructorRef  string
 	outerScopes     []outerScope
 	rootLoopSigs    []string
@@ -557,11 +558,59 @@ func (g *Gen) findLoops() {
 			}
 		}
 	}
+	// loop form (range loop / plain for loop): an invariant written for one form talks about the counter of that form
+	// (`i`, or the hidden rangeindex); when a change turns the loop into the other form the invariants of that loop are
+	// contract drift (dropped for this run, what rests on them undecided), not failures
+	formOf := func(h *ssa.BasicBlock) string {
+		li := g.loops[h]
+		for bb := range li.body {
+			nested := false
+			for h2, l2 := range g.loops {
+				if h2 != h && li.body[h2] && l2.body[bb] {
+					nested = true
+				}
+			}
+			if nested {
+				continue
+			}
+			for _, in := range bb.Instrs {
+				if st, ok := in.(*ssa.Store); ok {
+					if a, ok := st.Addr.(*ssa.Alloc); ok && a.Comment == "rangeindex" {
+						return "range"
+					}
+				}
+			}
+		}
+		return "for"
+	}
+	g.loopForms = nil
+	for _, h := range heads {
+		g.loopForms = append(g.loopForms, formOf(h))
+	}
+	baseForms := g.W.baseLoopForms[g.fn.Pkg.Pkg.Path()+"::"+g.fn.RelString(g.fn.Pkg.Pkg)]
 	for _, h := range heads {
 		li := g.loops[h]
 		li.ordinal = ordOf[h]
 		if g.spec != nil {
 			li.spec = g.spec.Loops[li.ordinal]
+		}
+		if g.fn == g.rootFn && li.ordinal >= 1 && li.ordinal <= len(baseForms) && baseForms[li.ordinal-1] != formOf(h) && li.spec != nil && len(li.spec.Invariants) > 0 {
+			if g.driftedInv == nil {
+				g.driftedInv = map[*Clause]bool{}
+			}
+			for _, c := range li.spec.Invariants {
+				g.driftedInv[c] = true
+			}
+			note := fmt.Sprintf("loop %d invariant: the loop changed its form (%s loop on the baseline tree, %s loop now): its invariants names a variable the code no longer has in that role - not applied", li.ordinal, baseForms[li.ordinal-1], formOf(h))
+			dup := false
+			for _, n := range g.anchorNotes {
+				if n == note {
+					dup = true
+				}
+			}
+			if !dup {
+				g.anchorNotes = append(g.anchorNotes, note)
+			}
 		}
 		for bb := range li.body {
 			for _, in := range bb.Instrs {
